@@ -4,12 +4,17 @@ CFG = dict(
     level="proof",
     lean_modules=["ElysModel.Props.C15"],
     props_files=["ElysModel/Props/C15.lean"],
+    pre_cmds=["cd harness && go run ./cmd/mintburn -out ../lean/ElysModel/Gen/MintBurn.lean"],
     runs=[scn_run("c15"), hist_run(), hist_run(nq=200, sq=6, st=10, focus="cm.")],
     rule=HIST_RULE + "; plus the directed burner scenario (mode scn, prefix c15)",
     trusted_base=COMMON_TB + ["mint/burn sites are the x/bank coinbase/burn events of real blocks, classified by (module account, denom, enclosing message kind)"],
     assumptions=["IBC vouchers, x/mint inflation, slashing and governance burns do not occur in the generated worlds",
-                 "the static inventory of MintCoins/BurnCoins call sites (DESIGN 3.2 Gen/MintBurn) is not built; classification is of the events that actually occur"],
+                 "the static inventory of MintCoins/BurnCoins call sites (Gen/MintBurn, regenerated on every run by harness/cmd/mintburn: typed AST, every call of a method named "
+                 "MintCoins or BurnCoins outside tests with package, function, receiver type and argument text) is compared with a hand-read expectation; the classification of each "
+                 "site is a human reading, tied to behaviour only by the events that actually occur in real blocks; MatchAmmBalances (mints/burns pool assets) is reachable only from "
+                 "the v9 upgrade migration and is outside block processing"],
     explanation="Theorems: external supply is unchanged by every allowed op and every history; the native token goes up only by vesting release and down only by the burner; "
                 "share supply changes only in the paired share ops; witness that the burner as coded burns an external denom (known finding). Every coinbase/burn event "
-                "of every real block is classified; the model's supply is compared with the bank's.",
+                "of every real block is classified; the model's supply is compared with the bank's. Structural: the regenerated table of the 15 mint/burn call sites equals the "
+                "expectation (sites_as_expected, by decide), no block-processing site mints an external or virtual denom through x/bank, only the burner can burn an external one.",
 )
